@@ -1,7 +1,410 @@
-/- Helper lemmas for C08. -/
+/- Helper lemmas for C08 (totality: no modelled panic site is reachable). -/
 import SigV4.Spec.ValidateSpec
 import SigV4.Model.Keys
+import SigV4.Lemmas.Query
+import SigV4.Lemmas.C14
 
 namespace SigV4
+
+/-! ### Normal-form strings -/
+
+/-- A fixed point of the query element normaliser (the Props file calls this `Normal`). -/
+def c08Normal (x : Bytes) : Prop := normElem false x = .ok x
+
+/-- The invariant of parameter maps: normal keys, non-empty lists of normal values. -/
+def c08GoodMap (m : QueryMap) : Prop :=
+  ∀ kv ∈ m, c08Normal kv.1 ∧ kv.2 ≠ [] ∧ ∀ v ∈ kv.2, c08Normal v
+
+theorem c08_normal_enc (d : Bytes) : c08Normal (pctEncodeAll d) := by
+  unfold c08Normal
+  rw [normElem_eq_spec, pctDecode_pctEncodeAll]
+  rfl
+
+theorem c08_normal_exists {x : Bytes} (h : c08Normal x) : ∃ d, x = pctEncodeAll d := by
+  unfold c08Normal at h
+  rw [normElem_eq_spec] at h
+  cases hd : pctDecode true x with
+  | none => simp [hd] at h
+  | some d =>
+    simp only [hd, Option.map_some, optToOutcome_some, Outcome.ok.injEq] at h
+    exact ⟨d, h.symm⟩
+
+theorem c08_normElem_no_panic (isPath : Bool) (s : Bytes) (site : String) :
+    normElem isPath s ≠ .panic site := by
+  rw [normElem_eq_spec]
+  cases (pctDecode true s).map pctEncodeAll with
+  | none => intro h; cases h
+  | some r => intro h; cases h
+
+/-! ### `unescapeUri` on encoder output -/
+
+theorem c08_unescape_enc (d : Bytes) : ∃ r, unescapeUri (pctEncodeAll d) = .ok r := by
+  induction d with
+  | nil => exact ⟨[], by simp [pctEncodeAll, unescapeUri]⟩
+  | cons c rest ih =>
+    obtain ⟨r, hr⟩ := ih
+    rw [pctEncodeAll_cons]
+    by_cases hu : isUnreserved c = true
+    · have hne : c ≠ 0x25 := (unreserved_facts c hu).1
+      rw [if_pos hu]
+      simp only [List.singleton_append]
+      unfold unescapeUri
+      rw [if_neg hne, hr]
+      exact ⟨_, rfl⟩
+    · rw [if_neg hu]
+      obtain ⟨f1, f2, -⟩ := pctEncode_facts c
+      simp only [pctEncode, List.cons_append, List.nil_append]
+      unfold unescapeUri
+      simp only [if_true, f1, f2, hr]
+      exact ⟨_, rfl⟩
+
+theorem c08_unescape_normal {x : Bytes} (h : c08Normal x) : ∃ r, unescapeUri x = .ok r := by
+  obtain ⟨d, rfl⟩ := c08_normal_exists h
+  exact c08_unescape_enc d
+
+/-! ### Association-list invariants -/
+
+/-- Generic invariant: keys satisfy `P`, value lists are non-empty and their members satisfy `Q`. -/
+def c08Inv {β : Type} (P : Bytes → Prop) (Q : β → Prop) (m : List (Bytes × List β)) : Prop :=
+  ∀ kv ∈ m, P kv.1 ∧ kv.2 ≠ [] ∧ ∀ v ∈ kv.2, Q v
+
+theorem c08_inv_nil {β : Type} (P : Bytes → Prop) (Q : β → Prop) : c08Inv P Q [] := by
+  intro kv h; cases h
+
+theorem c08_inv_assocPush {β : Type} (P : Bytes → Prop) (Q : β → Prop) (m : List (Bytes × List β))
+    (k : Bytes) (v : β) (hm : c08Inv P Q m) (hk : P k) (hv : Q v) :
+    c08Inv P Q (assocPush m k v) := by
+  induction m with
+  | nil =>
+    intro kv hkv
+    simp only [assocPush, List.mem_cons, List.not_mem_nil, or_false] at hkv
+    subst hkv
+    exact ⟨hk, by simp, fun x hx => by
+      simp only [List.mem_cons, List.not_mem_nil, or_false] at hx; subst hx; exact hv⟩
+  | cons e rest ih =>
+    obtain ⟨k', vs⟩ := e
+    have he := hm (k', vs) (List.mem_cons_self ..)
+    have hrest : c08Inv P Q rest := fun kv h => hm kv (List.mem_cons_of_mem _ h)
+    unfold assocPush
+    by_cases hk' : k' = k
+    · rw [if_pos hk']
+      intro kv hkv
+      rcases List.mem_cons.1 hkv with rfl | h
+      · refine ⟨he.1, by simp, fun x hx => ?_⟩
+        rcases List.mem_append.1 hx with h | h
+        · exact he.2.2 x h
+        · simp only [List.mem_cons, List.not_mem_nil, or_false] at h; subst h; exact hv
+      · exact hrest kv h
+    · rw [if_neg hk']
+      intro kv hkv
+      rcases List.mem_cons.1 hkv with rfl | h
+      · exact he
+      · exact ih hrest kv h
+
+theorem c08_inv_assocExtend {β : Type} (P : Bytes → Prop) (Q : β → Prop) (m : List (Bytes × List β))
+    (k : Bytes) (vs : List β) (hm : c08Inv P Q m) (hk : P k) (hne : vs ≠ []) (hv : ∀ v ∈ vs, Q v) :
+    c08Inv P Q (assocExtend m k vs) := by
+  induction m with
+  | nil =>
+    intro kv hkv
+    simp only [assocExtend, List.mem_cons, List.not_mem_nil, or_false] at hkv
+    subst hkv
+    exact ⟨hk, hne, hv⟩
+  | cons e rest ih =>
+    obtain ⟨k', vs'⟩ := e
+    have he := hm (k', vs') (List.mem_cons_self ..)
+    have hrest : c08Inv P Q rest := fun kv h => hm kv (List.mem_cons_of_mem _ h)
+    unfold assocExtend
+    by_cases hk' : k' = k
+    · rw [if_pos hk']
+      intro kv hkv
+      rcases List.mem_cons.1 hkv with rfl | h
+      · refine ⟨he.1, by simp [hne], fun x hx => ?_⟩
+        rcases List.mem_append.1 hx with h | h
+        · exact he.2.2 x h
+        · exact hv x h
+      · exact hrest kv h
+    · rw [if_neg hk']
+      intro kv hkv
+      rcases List.mem_cons.1 hkv with rfl | h
+      · exact he
+      · exact ih hrest kv h
+
+theorem c08_inv_foldl_assocPush {β : Type} (P : Bytes → Prop) (Q : β → Prop)
+    (l : List (Bytes × β)) (m : List (Bytes × List β)) (hm : c08Inv P Q m)
+    (hl : ∀ kv ∈ l, P kv.1 ∧ Q kv.2) :
+    c08Inv P Q (l.foldl (fun m kv => assocPush m kv.1 kv.2) m) := by
+  induction l generalizing m with
+  | nil => exact hm
+  | cons kv rest ih =>
+    simp only [List.foldl_cons]
+    have h := hl kv (List.mem_cons_self ..)
+    exact ih _ (c08_inv_assocPush P Q m kv.1 kv.2 hm h.1 h.2)
+      (fun x hx => hl x (List.mem_cons_of_mem _ hx))
+
+theorem c08_inv_mergeParams (url body : QueryMap) (hu : c08GoodMap url) (hb : c08GoodMap body) :
+    c08GoodMap (mergeParams url body) := by
+  unfold mergeParams
+  induction body generalizing url with
+  | nil => exact hu
+  | cons kv rest ih =>
+    simp only [List.foldl_cons]
+    have h := hb kv (List.mem_cons_self ..)
+    exact ih _ (c08_inv_assocExtend c08Normal c08Normal url kv.1 kv.2 hu h.1 h.2.1 h.2.2)
+      (fun x hx => hb x (List.mem_cons_of_mem _ hx))
+
+theorem c08_inv_normalizeHeaders (hs : HeaderList) (m : HeaderMap)
+    (hm : c08Inv (fun _ => True) (fun _ => True) m) :
+    c08Inv (fun _ => True) (fun _ => True) (normalizeHeaders hs m) := by
+  induction hs generalizing m with
+  | nil => exact hm
+  | cons kv rest ih =>
+    obtain ⟨k, v⟩ := kv
+    unfold normalizeHeaders
+    exact ih _ (c08_inv_assocPush _ _ m _ _ hm trivial trivial)
+
+theorem c08_assocGet_mem {β : Type} (m : List (Bytes × β)) (k : Bytes) (v : β)
+    (h : assocGet m k = some v) : (k, v) ∈ m := by
+  induction m with
+  | nil => cases h
+  | cons e rest ih =>
+    obtain ⟨k', v'⟩ := e
+    unfold assocGet at h
+    by_cases hk : k' = k
+    · rw [if_pos hk] at h
+      cases h
+      subst hk
+      exact List.mem_cons_self ..
+    · rw [if_neg hk] at h
+      exact List.mem_cons_of_mem _ (ih h)
+
+theorem c08_assocGet_ne_nil {β : Type} (P : Bytes → Prop) (Q : β → Prop) (m : List (Bytes × List β))
+    (hm : c08Inv P Q m) (k : Bytes) : assocGet m k ≠ some [] := by
+  intro h
+  exact (hm _ (c08_assocGet_mem m k [] h)).2.1 rfl
+
+theorem c08_firstOf_normal (m : QueryMap) (hm : c08GoodMap m) (k v : Bytes)
+    (h : firstOf m k = some v) : c08Normal v := by
+  unfold firstOf at h
+  split at h
+  · rename_i v' vs hg
+    cases h
+    exact (hm _ (c08_assocGet_mem m k _ hg)).2.2 _ (List.mem_cons_self ..)
+  · cases h
+
+/-! ### The query parser produces good maps -/
+
+theorem c08_parseQuery_good (q : Bytes) (m : QueryMap) (h : parseQuery q = .ok m) : c08GoodMap m := by
+  rw [parseQuery_eq_spec'] at h
+  cases hr : refQueryPairs q with
+  | none => simp [hr] at h
+  | some ps =>
+    simp only [hr, Option.map_some, optToOutcome_some, Outcome.ok.injEq] at h
+    subst h
+    unfold groupPairs
+    refine c08_inv_foldl_assocPush c08Normal c08Normal _ [] (c08_inv_nil _ _) ?_
+    intro kv hkv
+    obtain ⟨p, _, rfl⟩ := List.mem_map.1 hkv
+    exact ⟨c08_normal_enc _, c08_normal_enc _⟩
+
+/-! ### `fromRequestParts` -/
+
+theorem c08_decodeFormBody_no_panic (cs : Option Bytes) (other : OtherCharset) (body : Bytes)
+    (site : String) : decodeFormBody cs other body ≠ .panic site := by
+  unfold decodeFormBody
+  simp only []
+  repeat' split
+  all_goals simp
+
+theorem c08_fromRequestParts_no_panic (H : Bytes → Bytes) (opts : Options) (other : OtherCharset)
+    (req : Request) (site : String) : fromRequestParts H opts other req ≠ .panic site := by
+  intro h
+  unfold fromRequestParts at h
+  split at h
+  · cases h
+  · rename_i p hp
+    exact (C09.canonPath_err_kind _ _).2 _ hp
+  · split at h
+    · cases h
+    · rename_i p hp
+      exact (parseQuery_err_kind' _).2 _ hp
+    · simp only [] at h
+      split at h
+      · split at h
+        · cases h
+        · rename_i p hp
+          exact c08_decodeFormBody_no_panic _ _ _ _ hp
+        · split at h
+          · cases h
+          · rename_i p hp
+            exact (parseQuery_err_kind' _).2 _ hp
+          · split at h <;> split at h <;> cases h
+      · cases h
+
+theorem c08_fromRequestParts_inv (H : Bytes → Bytes) (opts : Options) (other : OtherCharset)
+    (req : Request) (fp : FromParts) (h : fromRequestParts H opts other req = .ok fp) :
+    c08GoodMap fp.creq.params ∧ c08Inv (fun _ => True) (fun _ => True) fp.creq.headers := by
+  have hh : c08Inv (fun _ => True) (fun _ => True) (normalizeHeaders req.headers []) :=
+    c08_inv_normalizeHeaders _ _ (c08_inv_nil _ _)
+  unfold fromRequestParts at h
+  split at h
+  · cases h
+  · cases h
+  · split at h
+    · cases h
+    · cases h
+    · rename_i up hup
+      have hgu := c08_parseQuery_good _ _ hup
+      simp only [] at h
+      split at h
+      · split at h
+        · cases h
+        · cases h
+        · split at h
+          · cases h
+          · cases h
+          · rename_i bp hbp
+            have hgb := c08_parseQuery_good _ _ hbp
+            split at h <;> split at h
+            · cases h
+            · simp only [Outcome.ok.injEq] at h
+              subst h
+              exact ⟨c08_inv_mergeParams _ _ hgu hgb, hh⟩
+            · cases h
+            · simp only [Outcome.ok.injEq] at h
+              subst h
+              exact ⟨c08_inv_mergeParams _ _ hgu hgb, hh⟩
+      · simp only [Outcome.ok.injEq] at h
+        subst h
+        exact ⟨hgu, hh⟩
+
+/-! ### Parameter extraction -/
+
+theorem c08_authHeaderParamLoop_no_panic (ps : List Bytes) (m : List (Bytes × Bytes)) (site : String) :
+    authHeaderParamLoop ps m ≠ .panic site := by
+  induction ps generalizing m with
+  | nil => intro h; simp [authHeaderParamLoop] at h
+  | cons p rest ih =>
+    unfold authHeaderParamLoop
+    simp only []
+    split
+    · exact ih m
+    · split
+      · intro h; cases h
+      · exact ih _
+
+theorem c08_authParamsFromHeader_no_panic (c : CanonReq) (ah : Bytes) (site : String) :
+    authParamsFromHeader c ah ≠ .panic site := by
+  intro h
+  unfold authParamsFromHeader at h
+  simp only [] at h
+  split at h
+  · cases h
+  · split at h
+    · cases h
+    · rename_i p hp
+      exact c08_authHeaderParamLoop_no_panic _ _ _ hp
+    · split at h
+      · cases h
+      · cases h
+
+theorem c08_unescapeOpt_ok (o : Option Bytes) (h : ∀ v, o = some v → c08Normal v) :
+    ∃ r, unescapeOpt o = .ok r := by
+  cases o with
+  | none => exact ⟨none, rfl⟩
+  | some v =>
+    obtain ⟨r, hr⟩ := c08_unescape_normal (h v rfl)
+    exact ⟨some r, by simp [unescapeOpt, hr]⟩
+
+theorem c08_authParamsFromQuery_no_panic (c : CanonReq) (hc : c08GoodMap c.params) (alg : Bytes)
+    (site : String) : authParamsFromQuery c alg ≠ .panic site := by
+  intro h
+  unfold authParamsFromQuery at h
+  split at h
+  · cases h
+  · split at h
+    · rename_i cred sig sh date h1 h2 h3 h4
+      obtain ⟨r1, e1⟩ := c08_unescape_normal (c08_firstOf_normal _ hc _ _ h1)
+      obtain ⟨r2, e2⟩ := c08_unescape_normal (c08_firstOf_normal _ hc _ _ h2)
+      obtain ⟨r3, e3⟩ := c08_unescape_normal (c08_firstOf_normal _ hc _ _ h3)
+      obtain ⟨r4, e4⟩ := c08_unescape_normal (c08_firstOf_normal _ hc _ _ h4)
+      obtain ⟨r5, e5⟩ := c08_unescapeOpt_ok (firstOf c.params X_AMZ_SECURITY_TOKEN)
+        (fun v hv => c08_firstOf_normal _ hc _ _ hv)
+      rw [e1, e2, e3, e4, e5] at h
+      cases h
+    · cases h
+
+theorem c08_extractAuthParams_no_panic (c : CanonReq) (hp : c08GoodMap c.params)
+    (hh : c08Inv (fun _ => True) (fun _ => True) c.headers) (site : String) :
+    extractAuthParams c ≠ .panic site := by
+  intro h
+  unfold extractAuthParams at h
+  split at h
+  · exact c08_authParamsFromHeader_no_panic _ _ _ h
+  · exact c08_authParamsFromQuery_no_panic _ hp _ _ h
+  · rename_i hg _
+    exact c08_assocGet_ne_nil _ _ _ hh _ hg
+  · rename_i _ hg
+    exact c08_assocGet_ne_nil _ _ _ hp _ hg
+  · cases h
+  · cases h
+
+theorem c08_getAuthenticator_no_panic (H : Bytes → Bytes) (reqs : Requirements) (c : CanonReq)
+    (hp : c08GoodMap c.params) (hh : c08Inv (fun _ => True) (fun _ => True) c.headers)
+    (site : String) : getAuthenticator H reqs c ≠ .panic site := by
+  intro h
+  unfold getAuthenticator at h
+  split at h
+  · cases h
+  · rename_i p hg
+    unfold getAuthParams at hg
+    split at hg
+    · cases hg
+    · rename_i p' he
+      exact c08_extractAuthParams_no_panic c hp hh _ he
+    · split at hg
+      · cases hg
+      · cases hg
+  · unfold authenticatorOf at h
+    split at h
+    · cases h
+    · cases h
+
+/-! ### Signature validation -/
+
+theorem c08_prevalidate_no_panic (a : Authenticator) (region service : Bytes) (now : Int)
+    (site : String) : prevalidate a region service now ≠ .panic site := by
+  unfold prevalidate
+  repeat' split
+  all_goals simp
+
+theorem c08_getSigningKey_no_panic {σ : Type} (P : Provider σ) (s : σ) (a : Authenticator)
+    (region service : Bytes) (site : String) :
+    (getSigningKey P s a region service).out ≠ .panic site := by
+  rcases getSigningKey_cases P s a region service with ⟨e, _, h⟩ | ⟨_, e, _, h⟩ | ⟨_, resp, _, h⟩
+  · rw [h]; intro h'; cases h'
+  · rw [h]; intro h'; cases h'
+  · rw [h]; intro h'; cases h'
+
+theorem c08_validateSignature_no_panic {σ : Type} (H : Bytes → Bytes) (P : Provider σ) (s : σ)
+    (a : Authenticator) (region service : Bytes) (now : Int) (site : String) :
+    (validateSignature H P s a region service now).out ≠ .panic site := by
+  intro h
+  unfold validateSignature at h
+  split at h
+  · cases h
+  · rename_i p hp
+    exact c08_prevalidate_no_panic _ _ _ _ _ hp
+  · rename_i hpre
+    obtain ⟨sts, hsts⟩ := stringToSign_ok_of_prevalidate hpre
+    rw [hsts] at h
+    simp only [] at h
+    split at h
+    · cases h
+    · rename_i p hp
+      exact c08_getSigningKey_no_panic _ _ _ _ _ _ hp
+    · split at h
+      · cases h
+      · cases h
 
 end SigV4
